@@ -49,6 +49,25 @@ def build_harness():
         raise err
 
 
+FRESH_IFACES = os.path.join(HARNESS, 'fresh_ifaces.txt')
+FRESH_BIN = os.path.join(HARNESS, 'target_fresh', 'debug', 'harness')
+
+
+def build_fresh(seed):
+    """Thorough tier: eight fresh random declaration sets (interfaces f0..f7, from the run's seed) are expanded by
+    the real attribute macro into a second harness binary.  Returns the interface file."""
+    rc, out = sh([sys.executable, os.path.join(ROOT, 'ifaces', 'mk_ifaces.py'), '--fresh', str(seed), FRESH_IFACES])
+    if rc != 0:
+        raise RuntimeError('mk_ifaces --fresh failed: ' + out[-2000:])
+    rc, out = sh([os.path.join(HARNESS, 'build.sh'), FRESH_IFACES, 'fresh'], cwd=HARNESS)
+    if rc != 0:
+        i = out.find('\nerror')
+        err = BuildError("harness build (fresh interfaces) failed:\n" + (out[i:i + 6000] if i >= 0 else out[-6000:]))
+        err.full = out
+        raise err
+    return FRESH_IFACES
+
+
 def build_lean(targets):
     rc, out = sh(['lake', 'build'] + list(targets), cwd=LEAN)
     return rc == 0, out
@@ -159,10 +178,10 @@ def leanchecker(prop):
 # --------------------------------------------------------------------------
 # running ops
 
-def run_bin(binary, ops, timeout=1800):
+def run_bin(binary, ops, timeout=1800, ifaces=None):
     data = ''.join(o + '\n' for o in ops)
     try:
-        p = subprocess.run([binary, IFACES], input=data, env=ENV, stdout=subprocess.PIPE,
+        p = subprocess.run([binary, ifaces or IFACES], input=data, env=ENV, stdout=subprocess.PIPE,
                            stderr=subprocess.PIPE, text=True, timeout=timeout)
     except subprocess.TimeoutExpired as e:
         out = (e.stdout or b'')
@@ -179,14 +198,14 @@ def run_bin(binary, ops, timeout=1800):
     return lines, status
 
 
-def run_impl(ops):
+def run_impl(ops, binary=None, ifaces=None):
     """Run the implementation harness. If it dies or hangs on some op the run is
     resumed after that op, whose result becomes CRASH / HANG."""
     results = []
     rest = list(ops)
     guard = 0
     while rest:
-        lines, status = run_bin(HARNESS_BIN, rest, timeout=600)
+        lines, status = run_bin(binary or HARNESS_BIN, rest, timeout=600, ifaces=ifaces)
         results.extend(lines[:len(rest)])
         if len(lines) >= len(rest):
             break
@@ -202,8 +221,8 @@ def run_impl(ops):
     return results
 
 
-def run_model(ops):
-    lines, status = run_bin(DRIVER_BIN, ops)
+def run_model(ops, ifaces=None):
+    lines, status = run_bin(DRIVER_BIN, ops, ifaces=ifaces)
     if len(lines) != len(ops):
         raise BuildError(f'model driver produced {len(lines)} lines for {len(ops)} ops ({status})')
     return lines
@@ -309,11 +328,11 @@ def corpus_ops(prop):
     return out
 
 
-def refused_interfaces(build_log: str):
+def refused_interfaces(build_log: str, fresh=False):
     """Interfaces of ifaces.txt whose expansion panicked inside the attribute macro (from the cargo log):
     list of {'iface', 'declarations', 'message'}."""
     out = []
-    gen = os.path.join(HARNESS, 'src', 'gen.rs')
+    gen = os.path.join(HARNESS, 'src', 'gen_fresh.rs' if fresh else 'gen.rs')
     if 'custom attribute panicked' not in build_log or not os.path.exists(gen):
         return out
     lines = open(gen).read().split('\n')
@@ -324,14 +343,14 @@ def refused_interfaces(build_log: str):
             mods.append((i, m.group(1)))
     decls = {}
     cur = None
-    for l in open(IFACES):
+    for l in open(FRESH_IFACES if fresh else IFACES):
         t = l.split()
         if t and t[0] == 'IFACE':
             cur = t[1]; decls[cur] = []
         elif t and t[0] == 'DECL' and cur:
             decls[cur].append(bytes.fromhex(t[2]).decode())
     seen = set()
-    for m in re.finditer(r'custom attribute panicked[\s\S]{0,400}?src/gen\.rs:(\d+)[\s\S]{0,600}?message: ([^\n]*)', build_log):
+    for m in re.finditer(r'custom attribute panicked[\s\S]{0,400}?src/gen(?:_fresh)?\.rs:(\d+)[\s\S]{0,600}?message: ([^\n]*)', build_log):
         ln = int(m.group(1))
         name = None
         for (start, nm) in mods:
